@@ -318,7 +318,7 @@ def gen(r, tier):
         cases += random_rxo(r, 12000) + partition_cases(r, 12000) + gating_cases(r, 3000)
     else:
         # the exhaustive product of all kinds (589 824 pairs) runs in batches, see `extra`
-        cases += random_rxo(r, 16000) + partition_cases(r, 14000) + gating_cases(r, 4000)
+        cases += random_rxo(r, 9000) + partition_cases(r, 8000) + gating_cases(r, 2500)
     return cases
 
 
@@ -327,8 +327,27 @@ def extra(ctx, binary):
     configurations), each written as ONE number for Coq (`EZ`, see MatchCorr.v)"""
     if ctx.tier != "thorough":
         return
+    import os
     from vlib import core
     step = 150000
+    total_bad = 0
+    # one number per case: large files are cheap (about 1 GB of coqc memory for 15 000 cases), and the
+    # start-up of coqc would otherwise dominate (738 files of 800 cases)
+    saved = os.environ.get("VERIF_CASES_PER_FILE")
+    os.environ["VERIF_CASES_PER_FILE"] = os.environ.get("VERIF_C15_KINDS_PER_FILE", "15000")
+    try:
+        total_bad = _all_kinds_batches(ctx, binary, core, step)
+    finally:
+        if saved is None:
+            os.environ.pop("VERIF_CASES_PER_FILE", None)
+        else:
+            os.environ["VERIF_CASES_PER_FILE"] = saved
+    ctx.cov["evaluations"] = ctx.cov.get("evaluations", 0) + N_KINDS
+    ctx.cov["exhaustive_kind_combinations"] = N_KINDS
+    ctx.cov["model_disagreements"] = ctx.cov.get("model_disagreements", 0) + total_bad
+
+
+def _all_kinds_batches(ctx, binary, core, step):
     total_bad = 0
     for lo in range(0, N_KINDS, step):
         chunk = all_kinds(lo, min(lo + step, N_KINDS))
@@ -342,9 +361,7 @@ def extra(ctx, binary):
             total_bad += len(res["model_bad"])
             ctx.broken.append("correspondence C15 (all kinds): implementation differs from model on %d case(s), e.g. %s -> %s"
                               % (len(res["model_bad"]), lines[i0], outs[i0]))
-    ctx.cov["evaluations"] = ctx.cov.get("evaluations", 0) + N_KINDS
-    ctx.cov["exhaustive_kind_combinations"] = N_KINDS
-    ctx.cov["model_disagreements"] = ctx.cov.get("model_disagreements", 0) + total_bad
+    return total_bad
 
 
 def corpus():
@@ -467,11 +484,13 @@ def split_out(out):
     return w.strip(), r.strip()
 
 
-RXO_IDS = [2, 3, 4, 5, 8, 11, 12, 6, 23]   # rxo_policy_ids of CompatModel.v, in that order
+W_ORDER = [2, 3, 4, 5, 8, 11, 12, 6, 23]   # push order of the reader-side function (writer's participant)
+R_ORDER = [3, 2, 4, 5, 8, 11, 12, 6, 23]   # push order of the writer-side function (reader's participant)
 
 
-def obs_code(v):
-    """one observation as a number (decoded by obs_of_code in MatchCorr.v); None if it does not fit"""
+def obs_code(v, order):
+    """one observation as a 12-bit number (decoded by obs_of_code in MatchCorr.v); None if the
+    observation is not of the canonical shape (then the explicit `K` term is used)"""
     p = v.split()
     if p == ["M"]:
         return 0
@@ -481,15 +500,16 @@ def obs_code(v):
         return 2
     if p and p[0].startswith("X"):
         return 3
-    if p and p[0] == "I" and 3 <= len(p) <= 12:
+    if p and p[0] == "I" and len(p) >= 3:
         try:
-            idx = [RXO_IDS.index(int(x)) + 1 for x in p[1:]]
+            ids = [int(x) for x in p[2:]]
+            last = int(p[1])
         except ValueError:
             return None
-        seq = 0
-        for k, d in enumerate(idx[1:]):
-            seq += d << (4 * k)
-        return 4 + 8 * (idx[0] + 16 * seq)
+        if last != ids[0] or ids != [x for x in order if x in ids]:
+            return None
+        mask = sum(1 << order.index(x) for x in ids)
+        return 4 + 8 * mask
     return None
 
 
@@ -498,9 +518,9 @@ def case_term(c, out):
     if wr is None:
         return None  # PANIC / ABORT / HANG: the real code crashed
     if len(c) > 7 and c[6] == "all-kinds":
-        cw, cr = obs_code(wr[0]), obs_code(wr[1])
-        if cw is not None and cr is not None and cw < 2 ** 48:
-            return "EZ %d" % (c[7] + (1 << 20) * (cw + (1 << 48) * cr))
+        cw, cr = obs_code(wr[0], W_ORDER), obs_code(wr[1], R_ORDER)
+        if cw is not None and cr is not None:
+            return "EZ 0x%x" % (c[7] + (1 << 20) * (cw + (1 << 12) * cr))
     w, r = cverdict(wr[0]), cverdict(wr[1])
     if w is None or r is None:
         return None
